@@ -191,17 +191,33 @@ def case(kind, sched_kind, nb, B, E, folder):
                 ctx.prove(z3.BoolVal(not alive and c.scheduler._stopped is True), "no_thread_left", f"agent thread alive={alive} _stopped={c.scheduler._stopped}")
             else:
                 ctx.prove(z3.BoolVal(True), "no_thread_left", "round-robin starts no thread")
-            # reuse
+            # reuse: a further calibrate(2) must return (watchdog: a hang is a violation, not a harness stall) and add two batches
             ok, why = True, ""
-            try:
-                before = c.current_batch_index
-                c.calibrate(1)
-                ok = c.current_batch_index == before + 1 and len(c.losses_samp) > rows and len(c.losses_samp) == c.n_sampled_params
-                why = f"batches {before}->{c.current_batch_index}, rows {len(c.losses_samp)}"
-            except Exception as e:  # noqa: BLE001
-                ok, why = False, f"next calibrate raised {type(e).__name__}: {e}"
-            finally:
-                _teardown(c.scheduler)
+            box = {}
+
+            def again():
+                try:
+                    before_ = c.current_batch_index
+                    c.calibrate(2)
+                    box["ok"] = c.current_batch_index == before_ + 2 and len(c.losses_samp) > rows and len(c.losses_samp) == c.n_sampled_params
+                    box["why"] = f"batches {before_}->{c.current_batch_index}, rows {len(c.losses_samp)}"
+                except BaseException as e:  # noqa: BLE001
+                    box["ok"], box["why"] = False, f"next calibrate raised {type(e).__name__}: {e}"
+
+            if sched_kind == "rl":
+                th2 = threading.Thread(target=again, daemon=True)
+                th2.start()
+                th2.join(6.0)
+                if th2.is_alive():
+                    box["ok"], box["why"] = False, "the next calibrate(2) on the same object never returned (6 s watchdog)"
+                    # the stuck daemon thread stays parked on its queue for the rest of this process: it must not be woken
+                    # (it would run symbolic code concurrently with the next path)
+                    ctx.prove(z3.BoolVal(False), "reusable", box["why"])
+                    return
+            else:
+                again()
+            ok, why = box.get("ok", False), box.get("why", "")
+            _teardown(c.scheduler)
             ctx.prove(z3.BoolVal(ok), "reusable", why)
             ctx.sample({"case": name, "fault_index": str(k.t), "completed": done})
 
@@ -318,15 +334,29 @@ def replay_concrete(kind, sched_kind, nb, B, E, folder, k):
             if c.scheduler._stopped is not True:
                 bad = True
                 msgs.append("session flag still 'running'")
-        try:
-            before = c.current_batch_index
-            c.calibrate(1)
-            if c.current_batch_index != before + 1:
-                bad = True
-                msgs.append("next calibrate(1) did not add exactly one batch")
-        except Exception as e:  # noqa: BLE001
+        box = {}
+
+        def again():
+            try:
+                before = c.current_batch_index
+                c.calibrate(2)
+                if c.current_batch_index != before + 2:
+                    box["msg"] = "next calibrate(2) did not add exactly two batches"
+            except BaseException as e:  # noqa: BLE001
+                box["msg"] = f"next calibrate(2) raised {type(e).__name__}: {e}"
+
+        th2 = threading.Thread(target=again, daemon=True)
+        th2.start()
+        th2.join(6.0)
+        if th2.is_alive():
             bad = True
-            msgs.append(f"next calibrate(1) raised {type(e).__name__}: {e}")
+            msgs.append("next calibrate(2) on the same object never returned (6 s watchdog); live threads: " + ", ".join(t.name for t in threading.enumerate() if t is not threading.main_thread())[:200])
+            c.scheduler._stopped = True
+            c.scheduler._out_queue.put(None)
+            c.scheduler._in_queue.put(0)
+        elif "msg" in box:
+            bad = True
+            msgs.append(box["msg"])
     finally:
         _teardown(c.scheduler)
         _RLoss.hook = None
